@@ -37,11 +37,11 @@ QuickConfigs ==
     [L |-> 8, K |-> 1, pairs |-> "edge", step |-> 1] }    \* one byte
 ThoroughConfigs ==
   { [L |-> 0, K |-> 8, pairs |-> "all",  step |-> 1],     \* BitVec = native, 8 bits: 65 536 pairs
-    [L |-> 4, K |-> 2, pairs |-> "wide", step |-> 1],
+    [L |-> 4, K |-> 2, pairs |-> "all",  step |-> 1],     \* two limbs, all pairs
     [L |-> 2, K |-> 4, pairs |-> "wide", step |-> 1],
-    [L |-> 8, K |-> 1, pairs |-> "wide", step |-> 1],     \* the transport limb: one byte
-    [L |-> 4, K |-> 4, pairs |-> "edge", step |-> 7],     \* 16 bits: every 7th value x all shifts, boundary pairs
-    [L |-> 8, K |-> 2, pairs |-> "edge", step |-> 7] }
+    [L |-> 8, K |-> 1, pairs |-> "all",  step |-> 1],     \* the transport limb: one byte, all pairs
+    [L |-> 4, K |-> 4, pairs |-> "edge", step |-> 5],     \* 16 bits: every 5th value x all shifts, boundary pairs
+    [L |-> 8, K |-> 2, pairs |-> "edge", step |-> 5] }
 
 Width(c) == IF c.L = 0 THEN c.K ELSE c.L * c.K
 Edge(w) == LET m == P2(w) IN
